@@ -167,18 +167,12 @@ example : (applyOpT (.rem) [] (.setLen 10243) ⟨[1, 2], 2, 0, []⟩).2
 
 /-! ## frame -/
 
-/-- **frame (raw accesses).** Model the allocation as `data ++ slack` (`cap = orig + 10240` bytes). Replaying
-the raw accesses of any op on any invariant state changes no byte of the allocation at an index
-`≥ maxLen len evs` — the largest data length during the operation — and never changes the allocation's
-size; the data length afterwards is the one the reallocs announce.
-
-Full statement (DESIGN): "bytes of `mem` at indices `≥ max len len'` are unchanged by any step".
-Proved here: the part about the RAW accesses (realloc zero-fill and every `memmove`), with `maxLen` in
-place of `max len len'` (they coincide for every op of the language — no op grows and then shrinks —
-which is shown for the single-resize ops by `maxLen_single`). Missing: the typed stores (header rewrites,
-initialisers, element stores) — they go through live references whose in-bounds-ness is the length
-statement of C01/C02 (`bytes_canonical`: a `wr` past the end would lengthen the machine's byte list);
-hence `_partial`. -/
+/-- **frame (raw accesses only; any refusal schedule).** Model the allocation as `data ++ slack`
+(`cap = orig + 10240` bytes). Replaying the RAW accesses (realloc zero-fill and every `memmove`) of any op on
+any canonical state — no `Calm` needed, so also under a refusal schedule — changes no byte of the allocation
+at an index `≥ maxLen len evs` (the largest data length during the operation) and never changes the
+allocation's size. The full-strength statement — raw accesses AND typed stores, `max len len'` — is `frame`
+below (which assumes `Calm`); this one is kept for the states `frame` does not cover, hence `_partial`. -/
 theorem frame_partial (s : Shape) (v : Val) (g : Good s v) (m : Mem) (hb : m.bytes = encode s v)
     (abs : List Step) (op : Op) (slack : List Nat)
     (hcap : (m.bytes ++ slack).length = m.orig + maxIncrease) :
@@ -434,7 +428,7 @@ pointer, cached inner pointers included, equals a fresh `get_ptr` of the new byt
 This is the notification step on its own, for every shape / value / path (hypothesis `hself`: the resized
 node's own pointer reacts correctly to its own notification — discharged for leaf pointers and lists by
 `Ptr.self_notify_leaf/_ulist/_umap`). Its composition with the prologue / epilogue of the pointer machine
-into an invariant of runs is `ptrs_fresh_partial` below. -/
+into an invariant of runs is `ptrs_fresh` below. -/
 theorem ptrs_fresh_notify (p : List Step) (s : Shape) (v : Val) (t : Shape) (u u' : Val) (g : Good s v)
     (hu : s ≠ .unit) (hz : s.zst = false) (g' : Good s (subst s v p u')) (h : resolve s v p = .ok (t, u))
     (pre post : List Nat) (b src : Nat) (neg : Bool) (amt : Nat)
@@ -472,24 +466,28 @@ theorem ptrs_fresh_init (s : Shape) (v : Val) (base : Nat) (B : PtrM.PBuf) (hok 
 pointer object is HONEST for `v` along every live level — every pointer on the chain of live accessors,
 every cached `inner_exclusive` pointer included, equals `get_ptr` of the current bytes at its place (or is a
 uniformly shifted stale cache that lies inside its list's range), and `locTree` finds each live level.
-From such a world, after ANY history of `enter` / `leave` / `reborrow` / op lines executed by the functions the
-C03 driver runs (`PtrM.execEnter/execLeave/execReborrow/execOp`, i.e. `walk`, `runPre`, `runEvs`, `opAt`),
-the invariant holds again and NO line panicked.
+From such a world, after ANY history of `enter` / `leave` / `reborrow` / op lines — EVERY op of the op
+language, the composite ones (`UnsizedString::set`, `Set/Map::insert_all`) included — executed by the functions
+the C03 driver runs (`PtrM.execEnter/execLeave/execReborrow/execOp`, i.e. `walk`, `runPre`, `runEvs`, `opAt`;
+buffer A, `keepBad = false` = a plain case), the invariant holds again and NO line panicked.
 
-Full statement: for every history. Proved for histories satisfying `HistOkP` = at every op line (i) C01's
-`CmdOk` at node level (a successful model step stays below `orig + 10240`; a failing one is not the registered
-"initialiser fails behind the resize" finding) and (ii) `Covered`: the op is not one of the three COMPOSITE
-ops (`UnsizedString::set`, `Set::insert_all`, `Map::insert_all` — several notifications per call; not yet
-composed), and for `UnsizedMap::insert` on an existing key the element's `start_ptr` is defined (always, for
-the curated shapes). Hence `_partial`. For the composites the tie stays differential. -/
-theorem ptrs_fresh_partial (s : Shape) (cmds : List Cmd) (w : PtrM.World) (v : Val)
+Side conditions (`HistOkP`, at every op line): `NodeOk` = C01's `CmdOk` at node level, required of the
+single-resize ops only (a successful model step stays below `orig + 10240`; a failing one is not the
+registered "initialiser fails behind the resize" finding) — the composite ops need nothing: every exit of
+theirs, the registered half-way error exits included, keeps the invariant for the partially updated value —
+and, for `UnsizedMap::insert` on an existing key only,
+that `PtrM.startAddr` of the element pointer is defined (it looks two struct levels deep; true for every
+curated shape). `PInv` carries the address assumptions `orig + 10240 ≤ base`, `base + 2·(orig + 10240) < 2^64`
+and "the top shape is not an `AccountDiscriminant` wrapper". Proved by b-machine (`Unsized/PtrHonest*.lean`,
+using `applyAtT_len_exact`). -/
+theorem ptrs_fresh (s : Shape) (cmds : List Cmd) (w : PtrM.World) (v : Val)
     (inv : Unsized.Ptr.PInv s w v) (hok : Unsized.Ptr.HistOkP s w cmds) :
     (∀ a ∈ (Unsized.Ptr.prun s w cmds).2, Unsized.Ptr.isPanic a = false) ∧
     ∃ v', Unsized.Ptr.PInv s (Unsized.Ptr.prun s w cmds).1 v' :=
   Unsized.Ptr.ptrs_fresh_history s cmds w v inv hok
 
-/-- One line (the induction step of `ptrs_fresh_partial`). -/
-theorem ptrs_fresh_step_partial {s : Shape} {w : PtrM.World} {v : Val} (inv : Unsized.Ptr.PInv s w v) (c : Cmd)
+/-- One line (the induction step of `ptrs_fresh`). -/
+theorem ptrs_fresh_step {s : Shape} {w : PtrM.World} {v : Val} (inv : Unsized.Ptr.PInv s w v) (c : Cmd)
     (hok : Unsized.Ptr.LineOk s w c) :
     Unsized.Ptr.isPanic (Unsized.Ptr.pstep s w c).2 = false ∧ ∃ v', Unsized.Ptr.PInv s (Unsized.Ptr.pstep s w c).1 v' :=
   Unsized.Ptr.ptrs_fresh_step inv c hok
@@ -497,8 +495,8 @@ theorem ptrs_fresh_step_partial {s : Shape} {w : PtrM.World} {v : Val} (inv : Un
 /-- **checkTop_passes.** Honest histories never trip the pointer checks: after any history as above,
 `check_pointers` of the top pointer object against the allocation range is `true` — so neither the
 `debug_assert!`s at the head of `add_bytes` / `remove_bytes` nor `ExclusiveTopDrop::drop` fire (`X end` answers
-`ok`), in contrast to `swap_detected`. (Same `HistOkP` side condition, hence `_partial`.) -/
-theorem checkTop_passes_partial (s : Shape) (cmds : List Cmd) (w : PtrM.World) (v : Val)
+`ok`), in contrast to `swap_detected`. (Same `HistOkP` side conditions as `ptrs_fresh`.) -/
+theorem checkTop_passes (s : Shape) (cmds : List Cmd) (w : PtrM.World) (v : Val)
     (inv : Unsized.Ptr.PInv s w v) (hok : Unsized.Ptr.HistOkP s w cmds) :
     checkTop (Unsized.Ptr.prun s w cmds).1.a.rng (Unsized.Ptr.prun s w cmds).1.a.root = true
     ∧ (PtrM.endBuf (Unsized.Ptr.prun s w cmds).1 .A).2 = true :=
